@@ -111,7 +111,7 @@ def model_skeletons() -> dict[str, dict]:
             "Dog": obj({"dogName": STR, "good": BOOL}, ["dogName"]),
             "UnionsA": obj({"int-or-str": {"oneOf": [INT, STR]}, "optIntOrStr": {"anyOf": [INT, STR]}, "typeList": {"type": ["integer", "string", "boolean"]}}, ["int-or-str"]),
             "UnionsB": obj({"pet": {"oneOf": [ref("Cat"), ref("Dog")]}, "optPet": {"oneOf": [ref("Cat"), ref("Dog"), {"type": "null"}]}}, ["pet"], additionalProperties=False),
-            "UnionsC": obj({"pet-or-int": {"oneOf": [ref("Cat"), INT]}, "dateOrInt": {"anyOf": [DATE, INT]}}, additionalProperties=False),
+            "UnionsC": obj({"pet-or-int": {"oneOf": [ref("Cat"), INT]}, "dateOrInt": {"anyOf": [DATE, INT]}, "str-or-pet": {"oneOf": [STR, ref("Dog")]}}, additionalProperties=False),
             # members told apart only by the *type* of a shared key (the earlier member's decoder must fail cleanly)
             "ResV2": obj({"id": UUID, "label": STR}, ["id"], additionalProperties=False),
             "ResV1": obj({"id": INT, "label": STR}, ["id"], additionalProperties=False),
@@ -334,6 +334,8 @@ def endpoint_skeletons() -> dict[str, dict]:
             "/r/text": {"get": {"operationId": "getText", "responses": {"200": jresp(STR, ct="text/plain"), "201": jresp({"type": "string", "format": "binary"}, ct="application/octet-stream")}}},
             "/r/vnd": {"get": {"operationId": "getVnd", "responses": {"200": jresp(ref("Leaf"), ct="application/vnd.skel+json; charset=utf-8")}}},
             "/r/union": {"get": {"operationId": "getUnion", "responses": {"200": jresp({"oneOf": [ref("Leaf"), ref("Err")]}), "400": jresp({"type": ["integer", "null"]})}}},
+            # scalar members listed *before* the constructed member (the last constructed member still needs its guard)
+            "/r/union-scalar-first": {"get": {"operationId": "getUnionScalarFirst", "responses": {"200": jresp({"oneOf": [STR, ref("Leaf")]}), "201": jresp({"anyOf": [INT, arr(ref("Leaf"))]}), "202": jresp({"oneOf": [BOOL, DATE]})}}},
             "/r/ref": {"get": {"operationId": "getRefResp", "security": [{"k": []}], "responses": {"200": {"$ref": "#/components/responses/LeafResp"}, "500": {"$ref": "#/components/responses/Empty"}}}},
             "/r/multi": {
                 "get": {
